@@ -27,9 +27,29 @@ def function_level():
         with open(canary, "w") as fh:
             fh.write("HOST-SECRET-CONTENT")
         rel = os.path.relpath(canary, temp_dir)
+        # directories NEXT TO the private one whose names extend its name (a character-wise prefix test lets them through)
+        bn = os.path.basename(temp_dir)
+        siblings = []
+        for suffix in ("_sib", "x", ".bak", "-2"):
+            d = temp_dir + suffix
+            os.mkdir(d)
+            siblings.append(d)
+            with open(os.path.join(d, "canary.txt"), "w") as fh:
+                fh.write("HOST-SECRET-CONTENT")
+        near = tuple(f"../{bn}{sfx}/canary.txt" for sfx in ("_sib", "x", ".bak", "-2")) + (f"a/../../{bn}x/canary.txt", f"../{bn.upper()}/canary.txt")
+        try:
+            return _function_level(ae, sevenzip, temp_dir, canary, rel, near, bn)
+        finally:
+            import shutil
+            for d in siblings:
+                shutil.rmtree(d, ignore_errors=True)
+
+
+def _function_level(ae, sevenzip, temp_dir, canary, rel, near, bn):
+    if True:
         seq = getattr(ae, "_process_7z_files_sequential", None)
         if seq is not None:
-            for name in (canary, rel, "sub/../" + rel, "/" + canary, rel.replace("/", "\\"), "..\\" + rel):
+            for name in (canary, rel, "sub/../" + rel, "/" + canary, rel.replace("/", "\\"), "..\\" + rel) + near:
                 try:
                     res = list(seq([(None, name, "canary.txt")], temp_dir, "a.7z"))
                 except Exception as e:  # noqa   the read-back loop handles every per-member failure itself
@@ -46,7 +66,7 @@ def function_level():
         sj = getattr(sevenzip, "_safe_join", None)
         if sj is not None:
             for base in (temp_dir, os.path.relpath(temp_dir), temp_dir + "/"):
-                for name in NAMES + (canary, rel):
+                for name in NAMES + (canary, rel) + near + (f"../{bn}x", f"../{bn}_sib/new/file.txt", f"../{bn}", f"../{bn}/inner.txt", f"../{bn}x/../{bn}/ok.txt"):
                     try:
                         r = sj(base, name)
                     except sevenzip.Bad7zFile:
